@@ -776,7 +776,7 @@ fn mutate_all(doc: &J, repl: &[J], out: &mut Vec<J>) {
                     rec(root, path, c, repl, out);
                     path.pop();
                     // rename the key, duplicate the entry, move it first / last
-                    for newk in ["zz", "$lists", "type", ""] {
+                    for newk in ["zz", "$lists", "type", "", "$", "$nope", "$lists2", "$LISTS"] {
                         if newk != k {
                             let mut w = v.clone();
                             w[i].0 = newk.to_string();
